@@ -207,7 +207,7 @@ prop("C17", "Resume bookkeeping maintenance never loses the live resume position
      "normalised by one start with the old configuration, x operation {rename of the checkpoint key, move to a new replication id after a failover (source now reports [new, old]), stale-checkpoint gc through the cmd hook with a fake source reporting the ids}. The operation runs uninterrupted (R target requests) and then once for EVERY prefix k in 1..R-1 with the target dying after request k. "
      "non-trivial = distinct case with checkpoints in >= 2 databases, an existing position, and a crash strictly inside the operation. "
      "Oracle: P0 = position a clean start with the old configuration finds on the initial state; P1 = position a clean start with the new configuration (UpdateCheckpoint + GetCheckpoint, as newOutput/StartPoint do) finds on the crashed state (on a clone). P0 none => anything; else P1 exists, P1.offset >= P0.offset and P1.db == P0.db. gc: the newest entry of every id a source still reports survives."
-     " Second unit (switching the bidirectional recovery format): the initial state is written by a real bidirectional link that ran in one replay mode (sync: latest records; pipeline / parallel: frontier + commit journal) - initial full sync, 0-5 committed units (single / transactional), stop with or without a frontier flush, optionally a later full resynchronisation; the operation is the next start-up with another replay mode (namespace migration when the recovery family changes); every prefix of its requests is executed and followed by a clean start in the new mode, which must not fail and must find a position >= the one a start in the old mode finds on the initial state.",
+     " Second unit (switching the bidirectional recovery format): the initial state is written by a real bidirectional link that ran in one replay mode (sync: latest records; pipeline / parallel: frontier + commit journal) - initial full sync, 0-5 committed units (single / transactional), stop with or without a frontier flush, optionally a later full resynchronisation; the operation is the next start-up with another replay mode (namespace migration when the recovery family changes); every prefix of its requests is executed and followed by a clean start in the new mode, which must not fail and must find a position >= the one a start in the old mode finds on the initial state."
      " One case in three adds a second source (another shard of the same link, replication ids S/T, reported by a second source double) whose position lives under the same checkpoint key: the operation is carried out for the first source only and the second source's clean start must still find its position (same three comparisons)."
      " Third unit (SetRunId): the move to a new replication id as the running tool does it - RedisOutput.SetRunId with its own repetitions (about 4 s apart); the target connection dies after every prefix of the requests (the target is back 500 ms later), SetRunId finishes by itself, then the clean start with ids [new, previous] is judged; all prefixes of a case run concurrently.",
      [{"pkg": "c17", "test": "TestC17",
